@@ -191,6 +191,14 @@ func multiScalarmultVartimeFinal(r, point *ge25519.Ge25519, scalar *modm.Bignum2
 		flag >>= 1
 	}
 
+	// the leading bit is already accounted for by r = point, move past it
+	// (scalar > 1 here, so there is always a lower bit left)
+	flag >>= 1
+	if flag == 0 {
+		limb--
+		flag = topbit
+	}
+
 	// exponentiate
 	for {
 		ge25519.Double(r, r)
